@@ -14,7 +14,7 @@ SPEC = {
     },
     "stages": [
         # part 1: core_parser in lock-step with Model/Ndl.v (repaired get_type) + round-trip / reject oracle
-        {"name": "ndl_parser_lockstep", "bin": "c19_ndl", "model": "ndl", "n_quick": 16000, "n_thorough": 1200000,
+        {"name": "ndl_parser_lockstep", "bin": "c19_ndl", "model": "ndl", "n_quick": 12000, "n_thorough": 1200000,
          "shards": 4, "shards_thorough": 16},
         # part 2: generated valid descriptions run through generate_and_run_sim in a child process
         {"name": "ndl_run", "bin": "c19_run", "model": "ndl", "n_quick": 400, "n_thorough": 12000,
